@@ -239,7 +239,7 @@ def match_known(sig, prop, known):
 # --------------------------------------------------------------------------- replay files
 
 def write_replay(v):
-    d = os.path.join(VERIF, 'replays', v['property'])
+    d = os.path.join(os.environ.get('VP_REPLAY_DIR') or os.path.join(VERIF, 'replays'), v['property'])
     os.makedirs(d, exist_ok=True)
     body = {k: v[k] for k in ('property', 'clause', 'module', 'func', 'sig', 'case', 'observed',
                               'expected', 'what')}
@@ -290,8 +290,9 @@ def write_evidence(check, tier, seed, merged, wall, n_viol, known_seen, extra_co
         'coverage': cov, 'assumptions': list(check.ASSUMPTIONS), 'wall_s': round(wall, 2),
         'violations': n_viol,
     }
-    os.makedirs(os.path.join(VERIF, 'evidence'), exist_ok=True)
-    path = os.path.join(VERIF, 'evidence', check.ID + '.json')
+    evdir = os.environ.get('VP_EVIDENCE_DIR') or os.path.join(VERIF, 'evidence')     # mutant runs write elsewhere
+    os.makedirs(evdir, exist_ok=True)
+    path = os.path.join(evdir, check.ID + '.json')
     tmp = path + '.tmp'
     with open(tmp, 'w') as f:
         json.dump(ev, f, indent=1, sort_keys=True, default=_json_default)
